@@ -372,10 +372,12 @@ def do_sus(fx, f, rng):
 
 def do_tiled(fx, f, rng):
     """Sampling without replacement in the three tiling cases (size == len(a): one complete set and no remainder;
-    2 len(a); a ragged size), as 1-D and 2-D shapes, and with replacement."""
+    2 len(a); a ragged size), as 1-D and 2-D shapes, and with replacement; then with the optional weights p."""
     a = fx.arr("tiled.a", lambda: numpy.array([3, 0, 2, 1]))
+    p = fx.arr("tiled.p", lambda: numpy.array([0.375, 0.125, 0.25, 0.25]))     # the optional weights, both replace modes
     return (f(a, 4, False, None, rng), f(a, (2, 2), False, None, rng), f(a, 8, False, None, rng),
-            f(a, 6, False, None, rng), f(a, (2, 2), True, None, rng))
+            f(a, 6, False, None, rng), f(a, (2, 2), True, None, rng),
+            f(a, 6, False, p, rng), f(a, 4, False, p, rng), f(a, (3, 2), True, p, rng))
 
 
 def mk_cmat(fx):
